@@ -505,6 +505,43 @@ def r06_4(prog, rep):
             rep.ok(rid, "cmd_ical/add_chkpnt-arg", f.loc(S.line), "dirty mark is for the peer's uid (%s)" % a)
         else:
             rep.fail(rid, "cmd_ical/add_chkpnt-arg", f.loc(S.line), "dirty mark uses %s, not the peer credential's uid" % a)
+    # add_chkpnt itself: the only way out without recording the uid is a full slot table (which means "dump everybody")
+    ac = prog.fn("add_chkpnt", DAEMON)
+    acfg = ac.cfg
+    upar = ac.params[0]["n"]
+
+    def records(x):
+        for l, kind, nn in writes(x):
+            if lv(l).endswith(".key") and nn.get("k") == "bin" and lv(acfg.resolve(nn["r"])) == upar:
+                return True
+        return False
+    cap = None
+    for b in acfg.blocks:
+        c = acfg.cond(b)
+        if c is None:
+            continue
+        for a in cond_atoms(c, True):
+            if len(a) == 5 and a[0] == "<" and a[1] == "ichkpnts":
+                cap = b
+    if cap is None:
+        rep.fail(rid, "add_chkpnt/records-uid", ac.loc(), "no capacity test `ichkpnts < countof(chkpnts)` found in add_chkpnt")
+    else:
+        # every path from entry reaches the capacity test, and its true edge always records
+        hits, reached = forward_scan(acfg, (acfg.entry, -1), lambda b_, i_, x_: "stop" if b_ == cap else None)
+        early = reached  # an exit reachable without passing the capacity test
+        rec_ok = must_pass_to_exit(acfg, edge_start(acfg, cap, 0), records)
+        if not early and rec_ok:
+            rep.ok(rid, "add_chkpnt/records-uid", ac.loc(), "every call either records the uid or finds the slot table full (then everybody is dumped)")
+        else:
+            rep.fail(rid, "add_chkpnt/records-uid", ac.loc(),
+                     "add_chkpnt can return without recording the uid although slots are free (%s): an acknowledged change of that user is never checkpointed" % (
+                         "early return before the capacity test" if early else "the non-full branch does not store the uid"))
+    # chkpnt() resets the slot counter after the dump
+    ck = prog.fn("chkpnt", DAEMON)
+    if must_pass_to_exit(ck.cfg, (ck.cfg.entry, -1), lambda x: any(lv(l) == "ichkpnts" and nn.get("k") == "bin" and int_value(nn["r"]) == 0 for l, k_, nn in writes(x))):
+        rep.ok(rid, "chkpnt/resets-slots", ck.loc(), "every exit of chkpnt() clears the dirty-user counter")
+    else:
+        rep.fail(rid, "chkpnt/resets-slots", ck.loc(), "chkpnt() can return without clearing the dirty-user counter")
     # unsched reaches add_chkpnt
     u = prog.fn("unsched", DAEMON)
     if must_pass_to_exit(u.cfg, (u.cfg.entry, -1), lambda y: elem_has_call(y, "add_chkpnt")):
